@@ -198,34 +198,42 @@ func checkC17(c *core.Ctx, l *core.Ledger) {
 			l.Unk("CONFLICT", label+":insert", c.Rel(f.Pos()), "no insertion found")
 		}
 	}
-	if f := c.SSAFunc(c.LookupFunc("gen", "addFile")); f != nil {
-		checkGuardedInsert(f, "gen.addFile", false)
-		// the present edge returns a non-nil error
-		hasErr := false
-		core.Instrs(f, func(in ssa.Instruction) {
-			if r, ok := in.(*ssa.Return); ok && core.DefinitelyNonNilError(r.Results[len(r.Results)-1], 2) {
-				hasErr = true
-			}
-		})
-		l.Check(hasErr, "CONFLICT", "gen.addFile:error", c.Rel(f.Pos()), "a present key yields a non-nil error", "addFile never reports a conflict")
-	} else {
-		l.Unk("CONFLICT", "gen.addFile", "", "not found")
-	}
-	// who writes the files map of Generate: only addFile (via generate closure / mergeFiles)
+	// every insertion into a path→contents map in package gen — in addFile today, wherever it may move —
+	// happens on the key-absent edge of a presence test in its own function, and that function reports the
+	// present case as an error
+	nIns := 0
 	for _, f := range c.AllFuncs("gen") {
-		if c.IsTestFile(f.Pos()) || c.Named(f, "addFile") {
+		if c.IsTestFile(f.Pos()) {
 			continue
 		}
+		has := false
 		core.Instrs(f, func(in ssa.Instruction) {
-			mu, ok := in.(*ssa.MapUpdate)
-			if !ok {
-				return
+			if mu, ok := in.(*ssa.MapUpdate); ok && core.TypeLabel(mu.Map.Type()) == "map[string][]byte" {
+				has = true
 			}
-			if core.TypeLabel(mu.Map.Type()) != "map[string][]byte" {
-				return
-			}
-			l.Bad("CONFLICT", core.SSAName(f)+":raw-insert", c.Rel(in.Pos()), "a path→contents map is written outside addFile, bypassing the conflict test")
 		})
+		if !has {
+			continue
+		}
+		nIns++
+		label := "gen." + core.CanonName(f)
+		checkGuardedInsert(f, label, false)
+		// the present edge yields a non-nil error (returned, or accumulated)
+		hasErr := false
+		core.Instrs(f, func(in ssa.Instruction) {
+			if r, ok := in.(*ssa.Return); ok && len(r.Results) > 0 && core.DefinitelyNonNilError(r.Results[len(r.Results)-1], 2) {
+				hasErr = true
+			}
+			if call, ok := in.(*ssa.Call); ok {
+				if o := core.CalleeObj(call); o != nil && o.Pkg() != nil && (o.Pkg().Path()+"."+o.Name() == "fmt.Errorf" || o.Pkg().Path()+"."+o.Name() == "errors.New") {
+					hasErr = true
+				}
+			}
+		})
+		l.Check(hasErr, "CONFLICT", label+":error", c.Rel(f.Pos()), "a present key yields a non-nil error", "the function that inserts into the output map never reports a conflict")
+	}
+	if nIns == 0 {
+		l.Unk("CONFLICT", "gen:insert", "", "no insertion into a path→contents map found in package gen")
 	}
 	if f := c.SSAFunc(c.LookupFunc("internal/plugin", "MultiServiceGenerator.Generate")); f != nil {
 		// the merge may live in the fan-out closure or in a helper/method of the package it calls
